@@ -38,6 +38,9 @@ type GeneralizedGammaDistribution struct {
 /* -------------------------------------------------------------------------- */
 
 func NewGeneralizedGammaDistribution(a, d, p Scalar) (*GeneralizedGammaDistribution, error) {
+  if math.IsNaN(a.GetFloat64()) || math.IsNaN(d.GetFloat64()) || math.IsNaN(p.GetFloat64()) {
+    return nil, fmt.Errorf("invalid parameters")
+  }
   if a.GetFloat64() <= 0.0 || d.GetFloat64() <= 0.0 || p.GetFloat64() <= 0.0 {
     return nil, fmt.Errorf("invalid parameters")
   }
